@@ -163,8 +163,9 @@ class AnsiDecoder:
                 iter_codes = iter(codes)
                 for code in iter_codes:
                     if code == 0:
-                        # reset
-                        self.style = _Style.null()
+                        # reset the rendition; a hyperlink (OSC 8) is not part of it
+                        link = self.style.link
+                        self.style = _Style(link=link) if link else _Style.null()
                     elif code in SGR_STYLE_MAP:
                         # styles
                         self.style += _Style.parse(SGR_STYLE_MAP[code])
